@@ -89,13 +89,31 @@ theorem readHdu_prefix {F G : Nat} {p q : Bytes} {h : Hdu} {r : Bytes} (hFG : F 
         refine ⟨_, _, rfl, rfl, Or.inl ⟨?_, ?_⟩⟩
         · rw [List.take_append_of_le_length hlen']
         · rw [List.drop_append_of_le_length hlen]; exact List.prefix_append _ _
-      · simp only [hl, if_false, Option.some.injEq, Prod.mk.injEq] at hh
-        obtain ⟨rfl, rfl⟩ := hh
-        by_cases hl' : ((rest ++ t).take (roundUp len)).length = roundUp len
-        · rw [if_pos hl']
-          exact ⟨_, _, rfl, rfl, Or.inr ⟨rfl, rfl⟩⟩
-        · rw [if_neg hl']
-          exact ⟨_, _, rfl, rfl, Or.inr ⟨rfl, rfl⟩⟩
+      · rw [if_neg hl] at hh
+        by_cases hd2 : (rest.take len).length = len
+        · rw [if_pos hd2] at hh
+          simp only [Option.some.injEq, Prod.mk.injEq] at hh
+          obtain ⟨rfl, rfl⟩ := hh
+          have hlen' : len ≤ rest.length := by
+            rw [List.length_take] at hd2; omega
+          have e2 : (rest ++ t).take len = rest.take len := List.take_append_of_le_length hlen'
+          by_cases hl' : ((rest ++ t).take (roundUp len)).length = roundUp len
+          · rw [if_pos hl', e2]
+            exact ⟨_, _, rfl, rfl, Or.inl ⟨rfl, List.nil_prefix⟩⟩
+          · rw [if_neg hl', e2, if_pos hd2]
+            exact ⟨_, _, rfl, rfl, Or.inl ⟨rfl, List.nil_prefix⟩⟩
+        · rw [if_neg hd2] at hh
+          simp only [Option.some.injEq, Prod.mk.injEq] at hh
+          obtain ⟨rfl, rfl⟩ := hh
+          by_cases hl' : ((rest ++ t).take (roundUp len)).length = roundUp len
+          · rw [if_pos hl']
+            exact ⟨_, _, rfl, rfl, Or.inr ⟨rfl, rfl⟩⟩
+          · rw [if_neg hl']
+            by_cases hd3 : ((rest ++ t).take len).length = len
+            · rw [if_pos hd3]
+              exact ⟨_, _, rfl, rfl, Or.inr ⟨rfl, rfl⟩⟩
+            · rw [if_neg hd3]
+              exact ⟨_, _, rfl, rfl, Or.inr ⟨rfl, rfl⟩⟩
 
 theorem readHdu_nil (F : Nat) : readHdu F [] = none := by
   unfold readHdu; rw [readHeader_nil]
